@@ -926,6 +926,15 @@ private:
     {
       if (opcode == WsOpcode::TEXT)
       {
+        // RFC 6455 5.6 / 8.1: a text message must be valid UTF-8; fail the
+        // connection with 1007 instead of delivering it (as the server does).
+        WebSocketFrame utf8Check;
+        utf8Check.payload = payload;
+        if (!utf8Check.isValidUtf8())
+        {
+          sendClose(1007, "Invalid UTF-8");
+          return;
+        }
         if (_onTextMessage)
         {
           std::string text(payload.begin(), payload.end());
